@@ -253,6 +253,9 @@ def _constraint_strategy(labels_t, spin, quad):
         "bpar": st.tuples(st.integers(0, 3), st.integers(0, 3), st.integers(0, 2)).map(list),
         "abits": st.integers(0, (1 << 16) - 1),
         "with_anc": st.sampled_from([True, True, True, False]),
+        # build the constraint on an empty model of the same type and merge it with the documented update(model)
+        # (used only while the target has no ancillas of its own: equal names of different origin would be conflated)
+        "via_update": st.sampled_from([False, False, False, False, True]),
     }).map(_finish_constraint)
 
 
@@ -531,9 +534,22 @@ def run(spec, rec, spin):
         kwargs = {"lam": lam, "bounds": bounds}
         if rel != "eq":
             kwargs["log_trick"] = log
+        via_update = bool(c.get("via_update")) and not seen and not M.num_ancillas
+        # a validity query before the model changes (anything remembered from it must not survive the change)
+        lib(M.is_solution_valid, dict(xs[0]), what="is_solution_valid(before)")
         with warnings.catch_warnings(record=True) as caught:
             warnings.simplefilter("always")
-            lib(getattr(M, "add_constraint_%s_zero" % rel), P, what="add_constraint_%s_zero" % rel, **kwargs)
+            G = None
+            if via_update:
+                G = type(M)()
+                lib(getattr(G, "add_constraint_%s_zero" % rel), P, what="add_constraint_%s_zero" % rel, **kwargs)
+                if any(k in M for k in dict.keys(G)):
+                    G = None        # update() has dict semantics (overwrites coefficients of keys present on both sides)
+            if G is not None:
+                lib(M.update, G, what="update(model with constraints)")
+                classes.add("via_update")
+            else:
+                lib(getattr(M, "add_constraint_%s_zero" % rel), P, what="add_constraint_%s_zero" % rel, **kwargs)
         msgs = [str(w.message) for w in caught if issubclass(w.category, qv.utils.QUBOVertWarning)]
         warned_unsat = any("cannot be satisfied" in m for m in msgs)
         warned_always = any("always satisfied" in m for m in msgs)
